@@ -39,7 +39,12 @@ func frame(sid uint16, body ...[]byte) []byte {
 
 var svcDIB = []byte{4, 2, 2, 1}
 
-func descrRes(ia uint16) []byte { return frame(0x0204, devDIB(ia), svcDIB) }
+// furtherDIB is a manufacturer DIB (type 0xFE) whose body identifies the responder.
+func furtherDIB(ia uint16) []byte {
+	return []byte{8, 0xFE, byte(ia >> 8), byte(ia), ^byte(ia >> 8), ^byte(ia), 0x5A, 0xA5}
+}
+
+func descrRes(ia uint16) []byte { return frame(0x0204, devDIB(ia), svcDIB, furtherDIB(ia)) }
 func searchRes(ia uint16) []byte {
 	return frame(0x0202, []byte{8, 1, 192, 0, 2, byte(ia), 0x0e, 0x57}, devDIB(ia), svcDIB)
 }
@@ -55,7 +60,28 @@ type Ev struct {
 func (e Ev) String() string { return fmt.Sprintf("EV %s ia=%#x slot=%d", e.Kind, e.IA, e.Slot) }
 
 // CallRet is logged when the call under test returns.
+// LateView is logged at the end of a describe scenario: the further description blocks of the value
+// that DescribeTunnel returned, as they look after every later datagram has been received.
+type LateView struct {
+	IA  uint16
+	Hex string
+}
+
+func (l LateView) String() string {
+	return fmt.Sprintf("LATE-VIEW ia=%#x further-DIBs=%s", l.IA, l.Hex)
+}
+
+func furtherHex(d *knxnet.DescriptionRes) string {
+	var b []byte
+	for _, u := range d.UnknownBlocks {
+		b = append(b, byte(u.Type))
+		b = append(b, u.Data...)
+	}
+	return hex.EncodeToString(b)
+}
+
 type CallRet struct {
+	Further string
 	Timeout mc.Duration
 	What    string
 	IAs     []uint16
@@ -155,6 +181,7 @@ func c20Describe(slots int) func() {
 		ret := CallRet{Timeout: timeout, What: fmt.Sprintf("Describe(timeout=%v)", timeout), Err: errStr(err), T0: t0}
 		if res != nil {
 			ret.IAs = []uint16{uint16(res.DeviceHardware.Source)}
+			ret.Further = furtherHex(res)
 		}
 		if ep != nil {
 			ret.Closed = ep.Closed
@@ -164,6 +191,9 @@ func c20Describe(slots int) func() {
 		}
 		mc.Log(ret)
 		mc.Sleep(timeout + 5*ms)
+		if res != nil {
+			mc.Log(LateView{uint16(res.DeviceHardware.Source), furtherHex(res)})
+		}
 		censusNote()
 	}
 }
@@ -279,6 +309,17 @@ func c20Oracle(discover bool) func(tr *mc.Trace) []h.Violation {
 		hist := fmt.Sprint(injs)
 		if ret.Err != "" {
 			bad("error", "%s returned error %q (%s)", ret.What, ret.Err, hist)
+		}
+		if !discover && len(ret.IAs) == 1 {
+			want := hex.EncodeToString(append([]byte{0xFE}, furtherDIB(ret.IAs[0])[2:]...))
+			if ret.Further != want {
+				bad("response-content", "%s returned the response of device %#x with further description blocks %s; that response carried %s", ret.What, ret.IAs[0], ret.Further, want)
+			}
+			for _, e := range tr.Log {
+				if lv, ok := e.V.(LateView); ok && lv.Hex != want {
+					bad("response-changes-after-return", "the description response returned for device %#x had further description blocks %s; after later datagrams were received the same value shows %s (the value shares memory with the receive buffer)", lv.IA, want, lv.Hex)
+				}
+			}
 		}
 		if retT > deadline {
 			bad("late", "%s returned at %v, later than its timeout (%v)", ret.What, retT, deadline)
